@@ -22,6 +22,9 @@ DESCRIPTORS = {
     "constant_expressions": {"consts": [["RATE", 1000], ["PERIOD", "1/RATE"], ["N_CH", 7], ["HALF", "N_CH/2"], ["TWICE", "N_CH*2"], ["GAIN", 2.5],
                                         ["SCALED", "GAIN*N_CH"], ["LEN", "N_CH + 1"], ["NEG", "3 - N_CH"], ["PAREN", "(N_CH + 1)/4"], ["EXACT", "8/2"]],
                              "defs": [["msg", "BUF", [["data", "int16", "LEN"], ["more", "double", "N_CH*2"]]]], "imported": 0},
+    # --- the same shapes with ids running against definition order (a nested message has the larger id)
+    "msg_in_msg_ids_descending": {"defs": [["msg", "INNER", [["v", "int32", 0]]], ["msg", "OUTER", [["i", "INNER", 0], ["arr", "INNER", 2]]], ["signal", "PING"]], "imported": 0, "idorder": "desc"},
+    "imported_msg_in_msg_ids_descending": {"defs": [["msg", "INNER", [["v", "int32", 0]]], ["msg", "OUTER", [["i", "INNER", 0]]], ["msg", "THIRD", [["o", "OUTER", 2]]]], "imported": 1, "idorder": "desc"},
     # --- a second compilation in one process: the same names mean something else than in the first (state kept by a back end
     #     or by the parser module between two compilations must not leak)
     "recompile_alias_redefined": {"prior": {"defs": [["alias", "SAMPLE_T", "int16"], ["struct", "REC", [["v", "SAMPLE_T", 0], ["vs", "SAMPLE_T", 4]]], ["msg", "CAL", [["r", "REC", 0], ["g", "SAMPLE_T", 4]]]]},
